@@ -51,18 +51,28 @@ Print Assumptions C13_validation_gate.
 (** a successful run creates exactly one file per requested id, at [inject target id]; its content is
     the composition, table after table in source order, of writer . route id . pipeline (snap cfg);
     every other path of the file system is untouched.  (The code loops tables outside and targets
-    inside, concurrently; the theorem is the loop interchange.) *)
+    inside, concurrently; the theorem is the loop interchange.)  The id list may name an id more than once:
+    the pipeline is asked for the DISTINCT ids (processing.ProcessFeatures takes them from the map of targets). *)
 Theorem C13_cli_composition : forall sfeat snapfun snap pipeline (a : args sfeat) src fs0 fs',
   a_source a = Some src ->
   cli_run sfeat snapfun snap pipeline a fs0 = COk fs' ->
-  NoDup (a_ids a) /\
   (forall id, In id (a_ids a) -> exists path d,
       inject (a_target a) id = Some path /\
-      file_content sfeat snapfun snap pipeline (a_flags a) src (a_ids a) id (start_content (a_flags a) fs0 path) = COk d /\
+      file_content sfeat snapfun snap pipeline (a_flags a) src (distinct_ids (a_ids a)) id (start_content (a_flags a) fs0 path) = COk d /\
       fs_lookup path fs' = Some d) /\
   (forall q, (forall id, In id (a_ids a) -> inject (a_target a) id <> Some q) -> fs_lookup q fs' = fs_lookup q fs0).
 Proof. exact cli_composition. Qed.
 Print Assumptions C13_cli_composition.
+
+(** an id list with repetitions ("[6,5,6]") is the run on its distinct ids ("[5,6]"): the targets are the keys of a
+    map, so there is one target -- by C13_target_paths_distinct one file -- per DISTINCT requested id *)
+Theorem C13_duplicate_ids_one_file_each : forall sfeat snapfun snap pipeline (a : args sfeat) fs0,
+  NoDup (distinct_ids (a_ids a)) /\
+  (forall id, In id (distinct_ids (a_ids a)) <-> In id (a_ids a)) /\
+  cli_run sfeat snapfun snap pipeline a fs0 =
+  cli_run sfeat snapfun snap pipeline (MkArgs (a_tms_ok a) (a_source a) (a_target a) (distinct_ids (a_ids a)) (a_flags a)) fs0.
+Proof. exact duplicate_ids_one_file_each. Qed.
+Print Assumptions C13_duplicate_ids_one_file_each.
 
 (** what a new (or overwritten) target file holds: every table is registered as in the source, and
     table t of the file of [id] has one row per feature the pipeline delivers to [id] for t, in
@@ -129,8 +139,9 @@ Definition ex_src : list (table * list rfeat) := [
              MkRFeat [VInt 3; VNull] (Some [])]);                            (* dropped in both *)
   (ex_pts, [MkRFeat [VInt 7] (Some [(5, MkGeom 1 [(1, 1)] 9); (6, MkGeom 1 [(1, 1)] 9)])])].
 Definition ex_cfg : snapcfg := MkSnapCfg true false false.
-Definition ex_args (overwrite : bool) : args rfeat :=
-  MkArgs true (Some ex_src) (s_ "out/nl.gpkg") [5; 6] (MkFlags overwrite 2 true false false).
+Definition ex_args_ids (ids : list Z) (overwrite : bool) : args rfeat :=
+  MkArgs true (Some ex_src) (s_ "out/nl.gpkg") ids (MkFlags overwrite 2 true false false).
+Definition ex_args : bool -> args rfeat := ex_args_ids [5; 6].
 
 Definition rows_at (r : cres fsys) (path table : string) : option (list row) :=
   match r with
@@ -151,6 +162,18 @@ Example C13_example_run :
   rows_at r "out/nl.gpkg" "poi" = None /\
   (* a wrong flag plumbing would be seen: the library was asked under another configuration *)
   ref_cli_run (MkSnapCfg false true false) (ex_args false) [] = CErr PipelinePanic.
+Proof. vm_compute. repeat split. Qed.
+
+(** tile matrix 6 named twice: the files, and nothing else, of the run on [5; 6] *)
+Example C13_example_duplicate_ids :
+  distinct_ids [6; 5; 6] = [5; 6] /\
+  match ref_cli_run ex_cfg (ex_args_ids [6; 5; 6] false) [], ref_cli_run ex_cfg (ex_args false) [] with
+  | COk fs, COk fs' =>
+      List.length fs = 2%nat /\
+      rows_at (COk fs) "out/nl_6.gpkg" "parcels" = rows_at (COk fs') "out/nl_6.gpkg" "parcels" /\
+      rows_at (COk fs) "out/nl_5.gpkg" "parcels" = Some [[CVal (VInt 1); CGeom (g 15); CVal (VText 1)]]
+  | _, _ => False
+  end.
 Proof. vm_compute. repeat split. Qed.
 
 (** overwrite: a second run over the files of a first run (other page size, other content) leaves the
